@@ -271,6 +271,41 @@ class ModuleState(object):
             cls._owners = (funcs, classes)
         return cls._owners
 
+    _instances = None
+
+    @classmethod
+    def instances(cls):
+        """Library objects that hang off the classes for the life of the process - the property objects in every class's
+        `_properties` and what they contain (contained properties, embedded types' properties ...): state kept in an
+        attribute of such an object (a look-up table that learns, a memo) outlives a call just like a module global."""
+        if cls._instances is None:
+            out, seen = [], set()
+
+            def walk(qn, o, depth):
+                if id(o) in seen or depth > 4:
+                    return
+                mod = getattr(type(o), '__module__', '') or ''
+                if isinstance(o, type) or not (mod == 'stix2' or mod.startswith('stix2.')) or not hasattr(o, '__dict__'):
+                    return
+                seen.add(id(o))
+                out.append((qn, o))
+                for a, v in sorted(vars(o).items()):
+                    if isinstance(v, (list, tuple)):
+                        for i, x in enumerate(v[:50]):
+                            walk('%s.%s[%d]' % (qn, a, i), x, depth + 1)
+                    elif isinstance(v, dict):
+                        for k2 in list(v)[:50]:
+                            walk('%s.%s[%r]' % (qn, a, k2), v[k2], depth + 1)
+                    else:
+                        walk('%s.%s' % (qn, a), v, depth + 1)
+            for qn, c in cls.owners()[1]:
+                props = vars(c).get('_properties')
+                if isinstance(props, dict):
+                    for k, pobj in list(props.items()):
+                        walk('%s._properties[%s]' % (qn, k), pobj, 0)
+            cls._instances = out
+        return cls._instances
+
     @staticmethod
     def _snap(o):
         return dict(o) if isinstance(o, dict) else set(o) if isinstance(o, set) else list(o)
@@ -283,6 +318,11 @@ class ModuleState(object):
         self.saved = [(m, a, o, self._snap(o)) for m, a, o in self.candidates()]
         funcs, classes = self.owners()
         self.fsaved = {id(f): dict(f.__dict__) for _, f in funcs if f.__dict__}
+        self.isaved = []
+        for qn, o in self.instances():
+            for a, v in vars(o).items():
+                if isinstance(v, (dict, set, list)):
+                    self.isaved.append((qn, o, a, v, self._snap(v)))
         self.csaved = {}
         for _, c in classes:
             cc = self._class_containers(c)
@@ -341,6 +381,22 @@ class ModuleState(object):
                             setattr(c, a, o)
                         except Exception:
                             pass
+        for qn, o, a, v, snap in self.isaved:
+            try:
+                same = (vars(o).get(a) is v) and (v == snap) and (not isinstance(v, dict) or list(v) == list(snap))
+            except Exception:
+                same = False
+            if not same:
+                changed.append('instance-attribute:%s.%s' % (qn, a))
+                if isinstance(v, (dict, set)):
+                    v.clear()
+                    v.update(snap)
+                else:
+                    v[:] = snap
+                try:
+                    setattr(o, a, v)
+                except Exception:
+                    pass
         return changed
 
 
